@@ -109,7 +109,19 @@ Scale(s, m, r) == CASE s = 0 -> 1
                     [] s = 1 -> IF (r + m) % 2 = 0 THEN -1 ELSE 1
                     [] s = 2 -> <<2, -1, 3, -2, 1, -3>>[((r + m - 2) % 6) + 1]
                     [] s = 3 -> <<-2, 3, -1, 2, -3, 1>>[((r - 1) % 6) + 1]
-UniformScale(s) == s \in {0, 3}
+\* patterns 4..7 add a floating-point magnitude 10^MagExp to every column of the second set (applied by the harness;
+\* cosines, hence everything below, do not depend on it).  Their integer part is pattern IntScale(s).
+\*   4: every column 1e-5      5: one magnitude per component (1e-3, 1e3, 1e-5, 1e-9, 1e5, 1e-3), same in every mode
+\*   6: magnitudes differ between modes and components (1e-8 .. 1e5)      7: first component 1e-9, the others 1
+IntScale(s) == CASE s <= 3 -> s [] s \in {4, 5} -> 3 [] OTHER -> 1
+MagExp(s, m, j) == CASE s <= 3 -> 0
+                     [] s = 4 -> -5
+                     [] s = 5 -> <<-3, 3, -5, -9, 5, -3>>[((j - 1) % 6) + 1]
+                     [] s = 6 -> <<-3, 3, -5>>[m] + <<0, -2, 1, 0, -3, 2>>[((j - 1) % 6) + 1]
+                     [] s = 7 -> IF j = 1 THEN -9 ELSE 0
+MagModeIndependent(s) == s # 6            \* one magnitude per stacked column: the stacked correlation index is invariant
+Magnified(s) == s >= 4
+UniformScale(s) == IntScale(s) \in {0, 3}
 ScaleVec(a, v) == [k \in 1..Len(v) |-> a * v[k]]
 FromCols(cols) == [i \in 1..Len(cols[1]) |-> [j \in 1..Len(cols) |-> cols[j][i]]]
 RefCol(k, m, i) == ScaleVec(RefScale(m, i), ModePool(m)[BaseIdx(k, m, i)])
@@ -124,9 +136,10 @@ Dihedral(R) == {[j \in 1..R |-> ((j - 1 + k) % R) + 1] : k \in 0..(R - 1)}
 ExactPerms(R) == IF R <= FullPermR THEN Permutations(1..R) ELSE Dihedral(R)
 ExactCfg(R, M, a, b, p, s) ==
     [kind |-> "exact", R |-> R, M |-> M, a |-> a, b |-> b, p |-> p, s |-> s,
-     A |-> FacA(R, M, a), B |-> FacB(R, M, b, p, s), w |-> WeightsB(R)]
+     A |-> FacA(R, M, a), B |-> FacB(R, M, b, p, IntScale(s)), w |-> WeightsB(R),
+     mag |-> [m \in 1..M |-> [j \in 1..R |-> MagExp(s, m, j)]]]
 ValidExact(c) ==
-    /\ c.R \in 1..MaxR /\ c.M \in 1..3 /\ c.a \in {0, 1} /\ c.b \in {0, 1} /\ c.s \in 0..3
+    /\ c.R \in 1..MaxR /\ c.M \in 1..3 /\ c.a \in {0, 1} /\ c.b \in {0, 1} /\ c.s \in 0..7
     /\ DOMAIN c.p = 1..c.R /\ IsPerm(c.p, c.R) /\ c.p \in ExactPerms(c.R)
     /\ c = ExactCfg(c.R, c.M, c.a, c.b, c.p, c.s)
 
@@ -143,7 +156,9 @@ ThRange(c, W) == /\ \A i, j \in 1..c.R : W[i][j] \in 0..Pow(L, c.M)
 ThInvariant(c, W, W0) ==
     /\ BestSum(W) = BestSum(W0)
     /\ {Compose(c.p, pi) : pi \in BestAssignments(W)} = BestAssignments(W0)
-    /\ (c.s = 0 => BestSum(CongL(c.A, c.B, FALSE)) = BestSum(CongL(c.A, ExB0(c), FALSE)))
+    \* exchanging the roles of the two sets transposes the problem: same value, inverse matchings
+    /\ BestAssignments(CongL(c.B, c.A, TRUE)) = {InvPerm(pi) : pi \in BestAssignments(W)}
+    /\ (IntScale(c.s) = 0 => BestSum(CongL(c.A, c.B, FALSE)) = BestSum(CongL(c.A, ExB0(c), FALSE)))
 \* equivalent sets: value 1, attained exactly by the recovering permutation
 ThRecover(c, W) ==
     /\ (c.b = c.a => BestSum(W) = ExTop(c) /\ BestAssignments(W) = {InvPerm(c.p)})
@@ -162,7 +177,7 @@ ExactOK(c) ==
 -----------------------------------------------------------------------------
 (* Generic family: the spec fixes sizes / flavours; values are drawn by the harness from VERIF_SEED *)
 RowProfiles == << <<4, 3, 5>>, <<1, 2, 2>>, <<7, 6, 3>> >>
-GenFlavours == {"normal", "ternary", "noisyperm", "dupcol"}
+GenFlavours == {"normal", "ternary", "noisyperm", "dupcol", "scaled"}
 ValidGeneric(c) ==
     /\ c.R \in 1..MaxR /\ c.M \in 1..3 /\ c.prof \in 1..Len(RowProfiles) /\ c.flavour \in GenFlavours
     /\ c.k \in 1..GenDraws /\ c.rows = SubSeq(RowProfiles[c.prof], 1, c.M)
@@ -245,7 +260,7 @@ SeqsOver(S, n) == [1..n -> S]
 NoCfg == [kind |-> "none"]
 \* seeds only spread the enumeration over TLC's workers (one worker expands one seed)
 Seeds == {[kind |-> "seed", fam |-> "exact", R |-> r, M |-> m, b |-> b, s |-> s, f |-> f] :
-              r \in 1..MaxR, m \in 1..3, b \in {0, 1}, s \in 0..3, f \in 1..MaxR}
+              r \in 1..MaxR, m \in 1..3, b \in {0, 1}, s \in 0..7, f \in 1..MaxR}
          \cup {[kind |-> "seed", fam |-> "generic", R |-> r] : r \in 1..MaxR}
          \cup {[kind |-> "seed", fam |-> "metric", op |-> op] : op \in MetricOps}
          \cup {[kind |-> "seed", fam |-> "levexact", f |-> f, pad |-> pad] : f \in 1..Len(OrthFams), pad \in {0, 2}}
